@@ -67,7 +67,7 @@ func TestDriverIndexer(t *testing.T) {
 	n := EnvInt("VERIF_N", 16)
 	rng := NewRng(seed)
 	side := NewSidecar("indexer", seed,
-		"one generated chain (2-10 blocks of 0-7 mixed Ethereum/Cosmos/garbage txs, all outcome classes, small block gas limits) yields: CIndex (KVIndexer fed with real results incl. re-indexing), "+
+		"one generated chain (2-10 blocks of 0-7 mixed Ethereum/Cosmos/garbage txs incl. well-formed Ethereum-lane wrappers around an undecodable/truncated/empty/huge payload or a wrong From, all outcome classes, small block gas limits; a panic of IndexBlock is an oracle hit) yields: CIndex (KVIndexer fed with real results incl. re-indexing), "+
 			"CIndex-mutated (results with stripped/corrupted events and flipped codes), CSvc (EVMIndexerService lives with kill points at index-DB write boundaries, restarts and transient node-client failures: Status/Subscribe at start, patterns of failing Block/BlockResults calls per height in catch-up and live loop), CRpc (Backend receipts/txs/blocks/logs); "+
 			"non-trivial = the chain has an admitted-but-failed or rejected/dropped Ethereum tx or a multi-tx block (CIndex/CRpc), or a life killed before completion / restarted while lagging / with a served node-client failure (CSvc); distinct by chain content and schedule")
 	cases := NewCases(dir, "From Evm Require Import Indexer CorrIndexer.", "indexer_mismatches")
